@@ -512,6 +512,79 @@ func cmdLife(args []string) {
 				samples = append(samples, cfgJSON(c))
 			}
 		}
+	case "twins":
+		for ncases < *n {
+			s := randSem(rng)
+			if ncases%5 == 0 { // more structure: a wildcard next to subdomain patterns of the same base
+				s.Any = false
+				s.Pats = family(rng, family(rng, nil))
+				if len(s.Pats) > 4 {
+					s.Pats = s.Pats[:4]
+				}
+			}
+			c1 := s.spell(rng)
+			if _, err := cors.NewMiddleware(*c1); err != nil {
+				t.emit(map[string]any{"ev": "Rejected", "cfg": cfgJSON(c1), "err": err.Error()})
+				ncases++
+				continue
+			}
+			ncases++
+			lr.reset(probeSuite([]Sem{s}))
+			t.emit(map[string]any{"ev": "Note", "cfg": cfgJSON(c1)})
+			twins := []*cors.Config{c1}
+			// an independently spelled twin: other order, duplicates, letter case, method spelling, safelisted extras
+			for k := 0; k < 2; k++ {
+				c2 := s.spell(rng)
+				c2.PreflightSuccessStatus, c2.DangerouslyTolerateInsecureOrigins = c1.PreflightSuccessStatus, c1.DangerouslyTolerateInsecureOrigins
+				twins = append(twins, c2)
+			}
+			// every permutation of each list field (lists up to length 4; a sample beyond)
+			perm := func(get func(*cors.Config) *[]string) {
+				base := *get(c1)
+				if len(base) < 2 {
+					return
+				}
+				ps := permutations(len(base), 24, rng)
+				for _, p := range ps {
+					c := *c1
+					c.Origins, c.Methods = append([]string(nil), c1.Origins...), append([]string(nil), c1.Methods...)
+					c.RequestHeaders, c.ResponseHeaders = append([]string(nil), c1.RequestHeaders...), append([]string(nil), c1.ResponseHeaders...)
+					l := make([]string, len(base))
+					for i, j := range p {
+						l[i] = base[j]
+					}
+					*get(&c) = l
+					twins = append(twins, &c)
+				}
+			}
+			perm(func(c *cors.Config) *[]string { return &c.Origins })
+			perm(func(c *cors.Config) *[]string { return &c.Methods })
+			perm(func(c *cors.Config) *[]string { return &c.RequestHeaders })
+			perm(func(c *cors.Config) *[]string { return &c.ResponseHeaders })
+			var ids []string
+			for i, c := range twins {
+				id := fmt.Sprintf("t%d", i)
+				m, err := cors.NewMiddleware(*c)
+				t.emit(map[string]any{"ev": "New", "mw": id, "cfg": "c", "ok": err == nil, "nilmw": m == nil, "twin": cfgJSON(c)})
+				if err == nil {
+					lr.mws[id] = m
+					ids = append(ids, id)
+				}
+			}
+			for _, dbg := range []bool{false, true} {
+				for _, id := range ids {
+					if dbg {
+						lr.setDebug(id, true)
+					}
+					// Config() values of twins are deliberately not compared: observe responses only
+					fp := fingerprint(lr.mws[id], lr.suite)
+					t.emit(map[string]any{"ev": "Observe", "mw": id, "fp": fp, "cfgnil": false, "cfgfp": "twin-" + id})
+				}
+			}
+			if len(samples) < 3 {
+				samples = append(samples, map[string]any{"original": cfgJSON(c1), "twin": cfgJSON(twins[1]), "twins": len(twins)})
+			}
+		}
 	case "mutate":
 		for ncases < *n {
 			ncases++
@@ -591,3 +664,37 @@ func cloneConfig(c *cors.Config) *cors.Config {
 }
 
 var _ = sort.Strings
+
+// permutations returns all permutations of 0..n-1 when there are at most max of them, else max random ones.
+func permutations(n, max int, rng *rand.Rand) [][]int {
+	total := 1
+	for i := 2; i <= n; i++ {
+		total *= i
+		if total > max {
+			break
+		}
+	}
+	var out [][]int
+	if total <= max {
+		var rec func(p []int, used []bool)
+		rec = func(p []int, used []bool) {
+			if len(p) == n {
+				out = append(out, append([]int(nil), p...))
+				return
+			}
+			for i := 0; i < n; i++ {
+				if !used[i] {
+					used[i] = true
+					rec(append(p, i), used)
+					used[i] = false
+				}
+			}
+		}
+		rec(nil, make([]bool, n))
+		return out
+	}
+	for k := 0; k < max; k++ {
+		out = append(out, rng.Perm(n))
+	}
+	return out
+}
